@@ -40,7 +40,9 @@ RULE = (
     "and rows, result equal as multiset. derived: every listed producer (create_kmers, get_kmers, selector output, "
     "{kmer: table[kmer]}, count(), spacing, similar_kmers, sliced / stepped / reversed / masked / index-selected / copied / "
     "concatenated sequences) x every consumer whose argument type fits, result equal to that for an equal-valued object "
-    "built directly. A case is counted once; it is non-trivial when "
+    "built directly. ambient: every listed process-wide state change (working directory - also before the first use of the "
+    "prime table -, numpy error state, warnings as errors, print options, locale / TMPDIR) x every listed operation, in a "
+    "forked child, result equal to that in the default state. A case is counted once; it is non-trivial when "
     "the model's result set (triples / selected positions / similar k-mers) is non-empty and, for tables, at least "
     "one k-mer of the reference is stored."
 )
@@ -749,6 +751,8 @@ def bounds(tier):
         "flavour": {"layouts": list(LAYOUTS), "other_types": list(OTHER_TYPES), "numpy_scalars": list(SCALARS)},
         "derived": "24 k-mer-array producers x up to 21 consumers, 11 selector outputs x 4 table consumers, table -> from_positions / "
                    "FrequencyPermutation / KmerAlphabet, 10 (12 for nucleotides) derived sequences x 13 sequence consumers",
+        "ambient": {"events": list(AMBIENT_EVENTS), "operations": 9},
+        "similarity_edge_matrices": list(MATRICES_EDGE),
         "order": "all permutations of 3 references / 3 tables / 4 selection pairs / 3 dict keys x 3 rows; match_table argument swap",
         "alias": {"scenarios": len(alias_scenarios(tier)), "spacing_forms": list(SPACING_FORMS),
                   "spacing_models": "KmerAlphabet: every k-subset of [0, k+2) for k = 2, 3 in sorted and reversed order; table "
@@ -820,7 +824,7 @@ def multi_cfg(tier):
 def triple_cfg(tier):
     models = [None, [0, 2]] if tier == "quick" else [None, [0, 2], [0, 3], [1, 2]]
     return {"n": 2, "k": 2, "models": models, "kinds": ["K", "B1", "B2", "B3", "B5", "Bdef"],
-            "alpha": ["same", "explicit", "ext", "mixed"]}
+            "alpha": ["same", "explicit", "ext", "mixed", "mixed_explicit"]}
 
 
 def multi_shards(tier):
@@ -960,7 +964,7 @@ def check_table_case(ctx, mc, case):
     ctx.ev(1, 1 if (req and m > 1) else 0)
     # ---- A: from_sequences
     sobjs = [env.seq(s) for s in seqs]
-    if alpha == "mixed":
+    if alpha in ("mixed", "mixed_explicit"):
         sobjs[0] = env.mk_t(seqs[0])
     kw = dict(nb_kw(tk))
     if env.sparg is not None:
@@ -969,8 +973,8 @@ def check_table_case(ctx, mc, case):
         kw["ignore_masks"] = [mask_array(len(s), mk) if mk else None for s, mk in zip(seqs, masks)]
     if ids is not None:
         kw["ref_ids"] = ids if case["ids"] != "perm" else np.array(ids)
-    if alpha in ("explicit", "ext"):
-        kw["alphabet"] = env.talph
+    if alpha in ("explicit", "ext", "mixed_explicit"):
+        kw["alphabet"] = env.talph  # given explicitly AND differing from (some of) the sequences' alphabets
     try:
         A = T.from_sequences(env.k, sobjs, **kw)
     except Exception as e:  # noqa: BLE001
@@ -1096,9 +1100,18 @@ def check_table_case(ctx, mc, case):
     if req and exact:
         kw = dict(nb_kw(tk)) if tk != "Bdef" else {"n_buckets": nbA}
         flat = sorted(req, key=lambda e: (e[1], e[2]))
-        for variant in ("drop", "shift", "otherid"):
+        absent = [c for c in range(env.N) if c not in {e[0] for e in flat}]
+        for variant in ("drop", "shift", "otherid", "add_present_kmer", "add_absent_kmer", "add_many"):
             ent = list(flat)
-            if variant == "drop":
+            if variant == "add_present_kmer":  # the other table is LARGER: one more position of a k-mer both have
+                ent.append((flat[-1][0], flat[-1][1], flat[-1][2] + 50))
+            elif variant == "add_absent_kmer":  # ... or holds a k-mer this table lacks
+                if not absent:
+                    continue
+                ent.append((absent[-1], flat[-1][1], 0))
+            elif variant == "add_many":
+                ent += [(c, 77, p) for c in range(env.N) for p in (0, 1, 2)]
+            elif variant == "drop":
                 ent = ent[:-1]
             elif variant == "shift":
                 c, a, b = ent[-1]
@@ -1115,9 +1128,9 @@ def check_table_case(ctx, mc, case):
             other = T.from_kmer_selection(env.kalph, [np.array([b for b, _ in byid[a]], dtype=np.uint32) for a in rid2],
                                           [np.array([c for _, c in byid[a]], dtype=np.int64) for a in rid2],
                                           ref_ids=rid2, **kw)
-            if A == other or not (A != other):
+            if A == other or not (A != other) or other == A or not (other != A):
                 ctx.violation("%s.__eq__|true_for_different|one_entry_%s" % (name, variant),
-                              "tables with different entries compare equal", case, False, True)
+                              "tables with different entries compare equal (checked in both directions)", case, False, True)
                 return
     if len(ctx.samples) < 2 and m > 1 and req and anymask:
         ctx.sample(case)
@@ -1163,9 +1176,9 @@ def run_triple(shard, ctx):
     envs = {"same": Env(cfg["n"], ctx.seed, cfg["k"], sp)}
     envs["explicit"] = envs["same"]
     envs["ext"] = Env(cfg["n"], ctx.seed, cfg["k"], sp, table_n=3)
-    envs["mixed"] = envs["ext"]
+    envs["mixed"] = envs["mixed_explicit"] = envs["ext"]
     mcs = {a: MultiCtx(e, tk, cfg["n"], cfg["k"], ctx=ctx) for a, e in envs.items() if a in ("same", "ext")}
-    mcs["explicit"], mcs["mixed"] = mcs["same"], mcs["ext"]
+    mcs["explicit"], mcs["mixed"], mcs["mixed_explicit"] = mcs["same"], mcs["ext"], mcs["ext"]
     base = {"kind": "triple", "n": cfg["n"], "k": cfg["k"], "sp": sp, "tk": tk}
     for tri in itertools.product(range(len(POOL3)), repeat=3):
         seqs = [list(POOL3[i]) for i in tri]
@@ -1183,7 +1196,7 @@ def run_triple(shard, ctx):
 
 def replay_multi(case, ctx):
     alpha = case.get("alpha", "same")
-    env = Env(case["n"], ctx.seed, case["k"], case["sp"], table_n=3 if alpha in ("ext", "mixed") else None)
+    env = Env(case["n"], ctx.seed, case["k"], case["sp"], table_n=3 if alpha in ("ext", "mixed", "mixed_explicit") else None)
     mc = MultiCtx(env, case["tk"], case["n"], case["k"], ctx=ctx)
     c = {k: v for k, v in case.items() if k not in ("q", "qmask")}
     check_table_case(ctx, mc, c)
@@ -1208,10 +1221,17 @@ def sim_matrix(name, n):
                 return -2 if i % 2 else 0
             return 1 if (i + j) % 2 else -1
         return [[e(i, j) for j in range(n)] for i in range(n)]
+    if name == "zeros":  # every k-mer pair scores 0: all candidates tie
+        return [[0] * n for _ in range(n)]
+    if name == "const":  # all scores equal and positive
+        return [[2] * n for _ in range(n)]
+    if name == "allneg":  # no non-negative score at all, the diagonal is only the least bad
+        return [[-1 if i == j else -3 for j in range(n)] for i in range(n)]
     raise ValueError(name)
 
 
 MATRICES = ("ident", "diag", "offdiag")
+MATRICES_EDGE = ("zeros", "const", "allneg")  # boundary values of the compared score: ties, all zero, all negative
 
 
 def sim_cfg(tier):
@@ -1238,6 +1258,10 @@ def sim_shards(tier):
                 for sp in g["models"]:
                     for tk in g["kinds"]:
                         out.append({"kind": "sim", "g": g["g"], "matrix": mname, "ext": ext, "sp": sp, "tk": tk})
+        if g["g"] == "s2":
+            for mname in MATRICES_EDGE:
+                for tk in ("K", "B3"):
+                    out.append({"kind": "sim", "g": g["g"], "matrix": mname, "ext": 0, "sp": None, "tk": tk})
     ks = [(2, 2), (2, 3), (3, 2), (3, 3), (4, 2)] + ([(4, 3), (2, 4), (5, 2)] if tier == "thorough" else [])
     for n, k in ks:
         out.append({"kind": "simk", "n": n, "k": k})
@@ -1409,7 +1433,7 @@ def check_simk(ctx, case):
 
 def run_simk(shard, ctx):
     n, k = shard["n"], shard["k"]
-    for mname in MATRICES:
+    for mname in MATRICES + MATRICES_EDGE:
         for ext in (0, 1):
             if ext and n >= 5:
                 continue
@@ -1472,6 +1496,8 @@ def perm_order(name, n, k, N):
         counts = [N - 1 - c for c in range(N)]
     elif name == "freq_ties":
         counts = [c % 2 for c in range(N)]
+    elif name == "freq_zero":  # all counts equal (and zero): every candidate ties, the documented stable order decides
+        counts = [0] * N
     elif name == "freq_cyc":  # a rank order that is not its own inverse
         counts = [(c + 1) % N for c in range(N)]
     elif name == "freq_table":
@@ -1538,6 +1564,8 @@ def perm_impl(name, kalph, n, k, N, pal):
         return align.FrequencyPermutation(kalph, np.array([N - 1 - c for c in range(N)], dtype=np.int64))
     if name == "freq_ties":
         return align.FrequencyPermutation(kalph, np.array([c % 2 for c in range(N)], dtype=np.int64))
+    if name == "freq_zero":
+        return align.FrequencyPermutation(kalph, np.zeros(N, dtype=np.int64))
     if name == "freq_cyc":
         return align.FrequencyPermutation(kalph, np.array([(c + 1) % N for c in range(N)], dtype=np.int64))
     if name == "freq_table":
@@ -1602,7 +1630,7 @@ def sel_cfg(tier):
             {"n": 4, "k": 2, "models": [None], "L": 5 if q else 7, "perms": ("none", "freq_cyc", "random", "neg") if q else PERMS},
         ],
         "windows": [2, 3, 4, 5] if q else [2, 3, 4, 5, 6, 7],
-        "minarr": {"N": 4, "len": 7 if q else 9, "perms": ("none", "neg", "random", "freq_ties", "extreme")},
+        "minarr": {"N": 4, "len": 7 if q else 9, "perms": ("none", "neg", "random", "freq_ties", "extreme", "freq_zero")},
         "sync": [
             {"n": 2, "ks": [(3, 2), (4, 2), (4, 3)] if q else [(3, 2), (4, 2), (4, 3), (5, 2), (5, 3), (5, 4), (6, 3)],
              "L": 8 if q else 10},
@@ -1906,6 +1934,8 @@ def run_selmisc(shard, ctx):
 
     env = Env(2, ctx.seed, 3, None)
     probes = [
+        ("FrequencyPermutation|counts_shorter_than_alphabet", lambda: align.FrequencyPermutation(env.kalph, np.zeros(7, dtype=np.int64)), True),
+        ("FrequencyPermutation|counts_longer_than_alphabet", lambda: align.FrequencyPermutation(env.kalph, np.zeros(9, dtype=np.int64)), True),
         ("MinimizerSelector|window_below_2", lambda: align.MinimizerSelector(env.kalph, 1), True),
         ("MinimizerSelector|window_0", lambda: align.MinimizerSelector(env.kalph, 0), True),
         ("SyncmerSelector|s_equals_k", lambda: align.SyncmerSelector(env.alph, 3, 3), True),
@@ -3867,3 +3897,110 @@ def replay_derived(case, ctx):
 SHARD_SOURCES.append(derived_shards)
 RUNNERS["derived"] = run_derived
 REPLAYERS["derived"] = replay_derived
+
+
+# ---------------------------------------------------------------------------
+# ambient: process-wide state changes between / before the calls (third audit, dimension G)
+# ---------------------------------------------------------------------------
+AMBIENT_EVENTS = ("none", "chdir", "first_use_after_chdir", "np_seterr_raise", "warnings_as_errors", "printoptions", "env_locale")
+
+
+def ambient_ops(pal):
+    import biotite.sequence.align as align
+    from biotite.sequence.align.buckets import bucket_number
+
+    alph, mk = make_alphabet(2, pal)
+    s1, s2 = mk(ALIAS_REFS[0] + ALIAS_REFS[1]), mk(ALIAS_REFS[1] + (1, 1, 0))
+    ka3 = align.KmerAlphabet(alph, 3)
+    big = np.arange(8, dtype=np.int64)
+    return [
+        ("bucket_number", lambda: [int(bucket_number(n)) for n in (0, 1, 5, 13, 100, 10**5)]),
+        ("BucketKmerTable.from_sequences(default buckets)", lambda: (lambda t: [int(t.n_buckets), _entries(t, 4), t.match(s2).tolist()])(
+            align.BucketKmerTable.from_sequences(2, [s1]))),
+        ("KmerTable.from_sequences+match", lambda: (lambda t: [_entries(t, 4), t.match(s2).tolist(), str(t)])(align.KmerTable.from_sequences(2, [s1], spacing="101"))),
+        ("RandomPermutation.permute", lambda: align.RandomPermutation().permute(big).tolist()),
+        ("MincodeSelector+random", lambda: _tolist(align.MincodeSelector(ka3, 3, align.RandomPermutation()).select(s1))),
+        ("MinimizerSelector+random", lambda: _tolist(align.MinimizerSelector(ka3, 3, align.RandomPermutation()).select(s1))),
+        ("SyncmerSelector+frequency", lambda: _tolist(align.SyncmerSelector(alph, 3, 2, perm_impl("freq_cyc", align.KmerAlphabet(alph, 2), 2, 2, 4, pal)).select(s1))),
+        ("ScoreThresholdRule.similar_kmers", lambda: [make_scalar_rule(alph, 0).similar_kmers(align.KmerAlphabet(alph, 2), c).tolist() for c in range(4)]),
+        ("KmerAlphabet.create_kmers+split", lambda: [ka3.create_kmers(s1.code).tolist(), ka3.split(np.arange(8)).tolist(), repr(ka3)]),
+    ]
+
+
+def ambient_apply(event):
+    import os
+    import tempfile
+    import warnings
+
+    if event in ("chdir", "first_use_after_chdir"):
+        if event == "first_use_after_chdir":
+            import biotite.sequence.align.buckets as b
+
+            b._primes = None  # as in a fresh interpreter: the prime table is read on first use
+        os.chdir(tempfile.mkdtemp(prefix="c10-ambient-"))
+    elif event == "np_seterr_raise":
+        np.seterr(all="raise")
+    elif event == "warnings_as_errors":
+        warnings.simplefilter("error")
+    elif event == "printoptions":
+        np.set_printoptions(threshold=2, edgeitems=1, precision=1, linewidth=20)
+    elif event == "env_locale":
+        import locale
+
+        os.environ["LANG"] = os.environ["LC_ALL"] = "C"
+        os.environ["TMPDIR"] = "/nonexistent"
+        try:
+            locale.setlocale(locale.LC_ALL, "C")
+        except Exception:  # noqa: BLE001
+            pass
+
+
+def run_ambient(shard, ctx):
+    ops = ambient_ops(ctx.seed)
+    base = [_res(fn) for _, fn in ops]
+    for event in AMBIENT_EVENTS:
+        case = {"kind": "ambient", "event": event}
+        if not ctx.journal(case):
+            continue
+
+        def child(event=event):
+            import os
+            import shutil
+
+            first = [_res(fn) for _, fn in ops[:2]] if event != "first_use_after_chdir" else None
+            ambient_apply(event)
+            res = [_res(fn) for _, fn in ops]
+            cwd = os.getcwd()
+            if "c10-ambient-" in cwd:
+                left = os.listdir(cwd)
+                os.chdir("/")
+                shutil.rmtree(cwd, ignore_errors=True)
+                res.append(("files_left_in_cwd", left))
+            return first, res
+        r = ctx.isolated(child, timeout=120)
+        if r[0] != "ok":
+            ctx.violation("ambient|process_%s|%s" % (r[0], event), "the calls did not survive the state change", case, "results", list(r))
+            continue
+        _, res = r[1]
+        for (name, _), want, got in zip(ops, base, res):
+            ctx.ev(1, 1 if event != "none" else 0)
+            ctx.outcome((name, str(want)[:200]))
+            if got != want:
+                ctx.violation("%s|depends_on_ambient_state|%s" % (name.split("(")[0].split("+")[0], event),
+                              "the result changes with process-wide state the caller may have set", dict(case, op=name), want, got)
+        if len(res) > len(ops) and res[-1][1]:
+            ctx.violation("ambient|files_written_to_cwd|%s" % event, "files were created in the working directory", case, [], res[-1][1])
+    ctx.sample({"kind": "ambient", "event": "first_use_after_chdir"})
+
+
+def ambient_shards(tier):
+    return [{"kind": "ambient"}]
+
+
+def replay_ambient(case, ctx):
+    run_ambient({"kind": "ambient"}, ctx)
+
+
+SHARD_SOURCES.append(ambient_shards)
+RUNNERS["ambient"] = run_ambient
+REPLAYERS["ambient"] = replay_ambient
